@@ -1344,5 +1344,5 @@ def run(ctx):
                         'callbacks the property does not name (__hash__/__bool__ of keys) are outside the alphabet']
     return finish(
         ctx, 'model_checking',
-        'injection: every (registry flavour, entry point, call-out site, action, cache warm/cold) combination that reaches its site is executed; schedules: every harness (mutator || lookup for 8 mutators x 6 cached entry points, lookup-only pairs, two lookups + mutator) is explored over all thread schedules up to the preemption bound under a cooperative scheduler; oracles: no exception/crash, answer = before- or after-answer respecting real-time order, no stale answer in any entry point afterwards, ownership audit of the cache containers, no accumulation of live objects',
+        'injection: every (registry flavour, entry point, call-out site, action, cache warm/cold) combination that reaches its site is executed; each scenario is followed by later registrations in every base (one at a time) and, in a second pass, by an immediate change of the looked-up interface; schedules: every harness (mutator || lookup for 11 mutators x 6 cached entry points, lookup-only pairs, two lookups + mutator, lookup objects that already watch the looked-up specifications, two registries on one fresh specification, verifying lookups that recompute their resolution order) is explored over all thread schedules up to the preemption bound under a cooperative scheduler that also owns the locks of the library; oracles: no exception/crash/deadlock/hang, answer = before- or after-answer respecting real-time order, no stale answer in any entry point afterwards nor after a later change of the looked-up interface, ownership audit of the cache containers, no accumulation of live objects',
         'complete product for injection; stateless DFS over schedules with a preemption bound (CHESS-style); states = executions')
